@@ -115,6 +115,8 @@ const SHADOW_DIR: &[&str] = &["cd", "pushd", "popd"];
 const SHADOW_BUILTIN: &[&str] = &["declare", "alias", "shopt", "set", "export", "unset", "source", "trap", "eval", "exit", "test", "printf", "echo"];
 /// .. and the external commands of the persisting side (`grep() { command grep --color "$@"; }` is an everyday function)
 const SHADOW_EXTERNAL: &[&str] = &["grep", "sed", "tail", "mkdir"];
+/// .. and `builtin` / `command` themselves, which is how the carrier reaches the real commands (known finding R47)
+const SHADOW_WRAPPER: &[&str] = &["builtin", "command"];
 /// aliases with the names of commands the restore lines use: `alias cd='echo alias-cd; cd'`
 const SHADOW_ALIAS: &[&str] = &["cd", "pushd", "declare", "set", "shopt", "alias", "unset", "trap", "test", "exit"];
 const ALIASES: &[&str] = &["a0", "a1", "ll"];
@@ -358,6 +360,7 @@ impl Op {
             Op::FnDef { .. } | Op::FnUnset { .. } => "fn",
             Op::Shadow { name } if SHADOW_DIR.contains(&name.as_str()) => "fn.shadow-dir",
             Op::Shadow { name } if SHADOW_EXTERNAL.contains(&name.as_str()) => "fn.shadow-external",
+            Op::Shadow { name } if SHADOW_WRAPPER.contains(&name.as_str()) => "fn.shadow-wrapper",
             Op::Shadow { .. } => "fn.shadow-builtin",
             Op::AliasDef { name, .. } if SHADOW_ALIAS.contains(&name.as_str()) => "alias.shadow",
             Op::AliasDef { .. } | Op::Unalias { .. } => "alias",
@@ -399,6 +402,8 @@ impl Op {
             Op::AssocUnsetElem { name, key } => format!("declare -A {name}; unset -v {}", sq_quote(&format!("{name}[{key}]"))),
             Op::FnDef { name, body } => body.replace("NAME", name),
             Op::FnUnset { name } => format!("unset -f {name}"),
+            Op::Shadow { name } if name == "builtin" => "builtin() { command builtin \"$@\" && command echo \"shadow-builtin\"; }".to_string(),
+            Op::Shadow { name } if name == "command" => "command() { builtin command \"$@\" && builtin echo \"shadow-command\"; }".to_string(),
             Op::Shadow { name } if SHADOW_EXTERNAL.contains(&name.as_str()) => {
                 format!("{name}() {{ command {name} \"$@\" && builtin echo \"shadow-{name}\"; }}")
             }
@@ -528,7 +533,7 @@ impl History {
 /// `set +o` / `shopt -p` are printed before the sub-shell relaxes its own options.
 fn probe_text() -> String {
     let vars = var_names().join(" ");
-    let funcs = FUNCS.iter().chain(SHADOW_DIR).chain(SHADOW_BUILTIN).chain(SHADOW_EXTERNAL).copied().collect::<Vec<_>>().join(" ");
+    let funcs = FUNCS.iter().chain(SHADOW_DIR).chain(SHADOW_BUILTIN).chain(SHADOW_EXTERNAL).chain(SHADOW_WRAPPER).copied().collect::<Vec<_>>().join(" ");
     let aliases = ALIASES.iter().chain(SHADOW_ALIAS).copied().collect::<Vec<_>>().join(" ");
     format!(
         r#"(
@@ -1098,6 +1103,7 @@ struct Risky {
     shadow_builtin: bool,
     shadow_external: bool,
     shadow_alias: bool,
+    shadow_wrapper: bool,
 }
 
 fn gen_history(rng: &mut Rng) -> History {
@@ -1110,6 +1116,7 @@ fn gen_history(rng: &mut Rng) -> History {
         shadow_builtin: rng.chance(1, 8),
         shadow_external: rng.chance(1, 10),
         shadow_alias: rng.chance(1, 8),
+        shadow_wrapper: rng.chance(1, 30),
     };
     let n_steps = rng.range(2, 8);
     // a history that may contain a risky class does contain it: forced at a random step
@@ -1122,11 +1129,12 @@ fn gen_history(rng: &mut Rng) -> History {
     let force_shadow_builtin = slot(rng, risky.shadow_builtin, n_steps - 1);
     let force_shadow_external = slot(rng, risky.shadow_external, n_steps - 1);
     let force_shadow_alias = slot(rng, risky.shadow_alias, n_steps - 1);
+    let force_shadow_wrapper = slot(rng, risky.shadow_wrapper, n_steps - 1);
     let mut m = Model { extglob_locked: false, posix: false, declare_shadowed: false, readonly_used: BTreeSet::new(), ups: 0 };
     let mut steps = vec![];
     for si in 0..n_steps {
         let n_ops = rng.range(1, 4);
-        let forced_here = [force_readonly, force_allexport, force_dashed, force_posix, force_shadow_dir, force_shadow_builtin, force_shadow_external, force_shadow_alias].iter().any(|f| *f == Some(si));
+        let forced_here = [force_readonly, force_allexport, force_dashed, force_posix, force_shadow_dir, force_shadow_builtin, force_shadow_external, force_shadow_alias, force_shadow_wrapper].iter().any(|f| *f == Some(si));
         let detached = !forced_here && rng.chance(1, 12);
         let mut ops = vec![];
         let posix_before = m.posix;
@@ -1145,6 +1153,9 @@ fn gen_history(rng: &mut Rng) -> History {
         }
         if force_shadow_external == Some(si) && !m.posix {
             ops.push(Op::Shadow { name: rng.pick(SHADOW_EXTERNAL).to_string() });
+        }
+        if force_shadow_wrapper == Some(si) && !m.posix {
+            ops.push(Op::Shadow { name: rng.pick(SHADOW_WRAPPER).to_string() });
         }
         if force_shadow_alias == Some(si) {
             let name = *rng.pick(SHADOW_ALIAS);
@@ -1225,6 +1236,7 @@ impl Monitor for C12 {
             ("probed:fn.shadow-builtin".into(), f(6, 90)),
             ("probed:fn.shadow-external".into(), f(5, 75)),
             ("probed:alias.shadow".into(), f(6, 90)),
+            ("probed:fn.shadow-wrapper".into(), f(1, 15)),
             ("probed:fn.dashed".into(), f(15, 225)),
             ("probed:alias".into(), f(70, 1050)),
             ("probed:opt".into(), f(70, 1050)),
